@@ -258,6 +258,9 @@ func (p *Path) check(fr *frame, cond Value, label string) {
 	nt := p.ts.Not(t)
 	r := p.feasible(nt)
 	p.ex.countAssertQuery(r)
+	if p.ex.tier == 1 && r != Unknown {
+		p.crossCheck(nt, r, label)
+	}
 	switch r {
 	case Sat:
 		p.violation(fr, "assert", label, "", nt)
@@ -361,4 +364,32 @@ func (ex *Explorer) countAssertQuery(r SatResult) {
 		ex.assertUnsat++
 	}
 	ex.mu.Unlock()
+}
+
+// crossCheck re-decides an assertion query with two other solvers (thorough tier,
+// the first 40 assertion queries of each harness).
+func (p *Path) crossCheck(nt *Term, r SatResult, label string) {
+	ex := p.ex
+	ex.mu.Lock()
+	if ex.crossDone >= 40 {
+		ex.mu.Unlock()
+		return
+	}
+	ex.crossDone++
+	ex.mu.Unlock()
+	all := append(append([]*Term{}, p.pc...), nt)
+	for _, bin := range []string{"z3-new", "cvc5"} {
+		r2 := StandaloneCheck(bin, all, 60000)
+		ex.mu.Lock()
+		switch {
+		case r2 == Unknown:
+			ex.crossUnknown++
+		case r2 == r:
+			ex.crossAgree++
+		default:
+			ex.crossDisagree++
+			ex.stats.Inconclusive = append(ex.stats.Inconclusive, fmt.Sprintf("solver disagreement on assertion %q: z3=%v %s=%v", label, r, bin, r2))
+		}
+		ex.mu.Unlock()
+	}
 }
